@@ -118,6 +118,8 @@ template<class Shape_> vj::Value run_parti(const vj::Value& c)
     Index ne = ncoarse; const Index fac = Index(Geometry::Intern::StandardRefinementTraits<Shape_, dim>::count);
     while(ne < Index(nreq)) { ne *= fac; ++pre; }
   }
+  else if(kind == "explicit")
+    pre = int(c.get_int("prerefine", 0));     // assignments of the cells of the k times refined mesh (2-level numbering)
   {
     long long fine = (long long)ncoarse;
     for(int l(0); l < pre + L; ++l) fine *= (long long)Geometry::Intern::StandardRefinementTraits<Shape_, dim>::count;
